@@ -285,7 +285,9 @@ fn many_columns_probe<T: Sc>(rep: &mut Report) {
             for j in 0..m {
                 v += pt[(i, j)] * (((j * 3 + q * 7) % 11) as f64 - 5.0) / 4.0;
             }
-            T::of64(v + 0.25 * ((i * 7 + q * 3) % 13) as f64)
+            // (f64: two columns live on wildly different scales - nothing global may couple the columns)
+            let colscale = if T::NAME == "f64" && q == 3 { (2.0f64).powi(300) } else if T::NAME == "f64" && q == 5 { (2.0f64).powi(-300) } else { 1.0 };
+            T::of64((v + 0.25 * ((i * 7 + q * 3) % 13) as f64) * colscale)
         });
         let built = catch_unwind(AssertUnwindSafe(|| build_problem(FourierModel::<T>::new(n, h, 1.0), true, par, &y, w.as_deref(), None)));
         let mut multi = match built {
@@ -319,7 +321,7 @@ fn many_columns_probe<T: Sc>(rep: &mut Report) {
                 let (Some(cs), Some(rs), Some(js)) = (&os.cm, &os.r, &os.jm) else {
                     continue;
                 };
-                let scale = y.column(q).iter().fold(1.0f64, |mx, v| mx.max(v.to64().abs()));
+                let scale = y.column(q).iter().fold(0.0f64, |mx, v| mx.max(v.to64().abs())).max(1e-300);
                 let mut d = 0.0f64;
                 for j in 0..m {
                     d = d.max((cm[(j, q)].to64() - cs[(j, 0)].to64()).abs() / scale);
